@@ -3,7 +3,7 @@ from .common import runtime_options_item
 from vx.extract import C
 from .exec_common import exec_unit, begin_ast, end_ast, FOOTER
 
-PROPS = ['C02', 'C03', 'C01']
+PROPS = ['C02', 'C03', 'C16', 'C01']
 
 RUN = 'case_run(new_events(old(shell).trace(), %s.trace()), *self_, outer)'
 
